@@ -1,0 +1,6 @@
+//go:build !verif
+// +build !verif
+
+package jsonpath
+
+func verifHook(point int, id interface{}) {}
